@@ -37,7 +37,7 @@ var configs = []config{
 }
 
 type workload struct {
-	Name           string
+	Name            string
 	Quick, Thorough int
 }
 
